@@ -82,28 +82,84 @@ theorem XR.clipNp_ne_iff (x lo hi : XR α) (hx : x.isNaN = false) (hlo : lo.isNa
 
 end xr
 
-section eps
-variable {α : Type} [LinearOrder α] [AddCommGroup α] [IsOrderedAddMonoid α]
+/-! ### the only facts about `x - EPS` / `x + EPS` the theorems use
 
-theorem XR.lt_of_lt_subEps {eps : α} (heps : 0 ≤ eps) (x lo : XR α)
+`EpsOk eps`: subtracting the margin never moves a bound up, adding it never moves a bound down. It holds in every
+ordered additive group for `0 ≤ eps` (`EpsOk.of_nonneg`) AND in every arithmetic whose `+` / `-` are the exact
+operations followed by a monotone rounding onto the representable values (`Rounding`, `EpsOk.of_rounding`) — that is
+what IEEE-754 double arithmetic is, so no theorem of C12 depends on `mins - EPS` / `maxs + EPS` being exact. -/
+structure EpsOk {α : Type} [LE α] [Add α] [Sub α] (eps : α) : Prop where
+  sub_le : ∀ a : α, a - eps ≤ a
+  le_add : ∀ a : α, a ≤ a + eps
+
+theorem EpsOk.of_nonneg {α : Type} [LinearOrder α] [AddCommGroup α] [IsOrderedAddMonoid α] {eps : α}
+    (h : 0 ≤ eps) : EpsOk eps :=
+  ⟨fun a => sub_le_self a h, fun a => le_add_of_nonneg_right h⟩
+
+/-- a rounding operator on an ordered group: monotone, the identity on its own results (the representable values),
+and `0` is representable -/
+structure Rounding (β : Type) [LinearOrder β] [AddCommGroup β] where
+  rnd : β → β
+  mono : ∀ x y, x ≤ y → rnd x ≤ rnd y
+  idem : ∀ x, rnd (rnd x) = rnd x
+  zero : rnd 0 = 0
+
+/-- the representable values of a rounding, with the ROUNDED `+` and `-` (the order is the one of `β`) -/
+def Rounding.Fl {β : Type} [LinearOrder β] [AddCommGroup β] (R : Rounding β) : Type := { x : β // R.rnd x = x }
+
+namespace Rounding
+variable {β : Type} [LinearOrder β] [AddCommGroup β] (R : Rounding β)
+instance : LinearOrder R.Fl := inferInstanceAs (LinearOrder { x : β // R.rnd x = x })
+instance : Add R.Fl := ⟨fun a b => ⟨R.rnd (a.1 + b.1), R.idem _⟩⟩
+instance : Sub R.Fl := ⟨fun a b => ⟨R.rnd (a.1 - b.1), R.idem _⟩⟩
+instance : OfNat R.Fl 0 := ⟨⟨0, R.zero⟩⟩
+/-- a representable value -/
+def toFl (x : β) (h : R.rnd x = x) : R.Fl := ⟨x, h⟩
+theorem Fl.le_def (a b : R.Fl) : a ≤ b ↔ a.1 ≤ b.1 := Iff.rfl
+theorem Fl.add_val (a b : R.Fl) : (a + b).1 = R.rnd (a.1 + b.1) := rfl
+theorem Fl.sub_val (a b : R.Fl) : (a - b).1 = R.rnd (a.1 - b.1) := rfl
+end Rounding
+
+/-- ROUNDED ARITHMETIC: with `+` / `-` rounded by any monotone rounding, a non-negative margin still satisfies `EpsOk`
+(`rnd (a - eps) ≤ rnd a = a` because `a` is representable) -/
+theorem EpsOk.of_rounding {β : Type} [LinearOrder β] [AddCommGroup β] [IsOrderedAddMonoid β] (R : Rounding β)
+    (eps : R.Fl) (h : (0 : β) ≤ eps.1) : EpsOk eps := by
+  constructor
+  · intro a
+    rw [Rounding.Fl.le_def, Rounding.Fl.sub_val]
+    calc R.rnd (a.1 - eps.1) ≤ R.rnd a.1 := R.mono _ _ (sub_le_self _ h)
+      _ = a.1 := a.2
+  · intro a
+    rw [Rounding.Fl.le_def, Rounding.Fl.add_val]
+    calc a.1 = R.rnd a.1 := a.2.symm
+      _ ≤ R.rnd (a.1 + eps.1) := R.mono _ _ (le_add_of_nonneg_right h)
+
+section eps
+variable {α : Type} [LinearOrder α] [Add α] [Sub α]
+
+/-- the executable check the driver reports is implied by `EpsOk` -/
+theorem XR.epsOkAt_of_epsOk {eps : α} (heps : EpsOk eps) (x : XR α) : XR.epsOkAt eps x = true := by
+  cases x <;> simp [XR.epsOkAt, heps.sub_le, heps.le_add]
+
+theorem XR.lt_of_lt_subEps {eps : α} (heps : EpsOk eps) (x lo : XR α)
     (h : XR.lt x (lo.subEps eps) = true) : XR.lt x lo = true := by
   cases x <;> cases lo <;> simp_all [XR.lt, XR.subEps]
-  exact lt_of_lt_of_le h (sub_le_self _ heps)
+  exact lt_of_lt_of_le h (heps.sub_le _)
 
-theorem XR.lt_of_addEps_lt {eps : α} (heps : 0 ≤ eps) (x hi : XR α)
+theorem XR.lt_of_addEps_lt {eps : α} (heps : EpsOk eps) (x hi : XR α)
     (h : XR.lt (hi.addEps eps) x = true) : XR.lt hi x = true := by
   cases x <;> cases hi <;> simp_all [XR.lt, XR.addEps]
-  exact lt_of_le_of_lt (le_add_of_nonneg_right heps) h
+  exact lt_of_le_of_lt (heps.le_add _) h
 
 /-- the margin test never fires where the plain test does not -/
-theorem XR.outside_of_outsideEps {eps : α} (heps : 0 ≤ eps) (x lo hi : XR α)
+theorem XR.outside_of_outsideEps {eps : α} (heps : EpsOk eps) (x lo hi : XR α)
     (h : XR.outsideEps eps x lo hi = true) : XR.outside x lo hi = true := by
   simp only [XR.outsideEps, XR.outside, Bool.or_eq_true] at *
   rcases h with h | h
   · exact Or.inl (XR.lt_of_lt_subEps heps _ _ h)
   · exact Or.inr (XR.lt_of_addEps_lt heps _ _ h)
 
-theorem XR.outsideEps_false_of_ok {eps : α} (heps : 0 ≤ eps) (an : Bool) (x lo hi : XR α)
+theorem XR.outsideEps_false_of_ok {eps : α} (heps : EpsOk eps) (an : Bool) (x lo hi : XR α)
     (h : okElem an x lo hi = true) : XR.outsideEps eps x lo hi = false := by
   by_contra hc
   have ho := XR.outside_of_outsideEps heps x lo hi (by simpa using hc)
@@ -309,10 +365,10 @@ theorem boundsOk_noNaN : ∀ (lo hi : List (XR α)), boundsOk lo hi = true → l
 end lists
 
 section lists_eps
-variable {α : Type} [LinearOrder α] [AddCommGroup α] [IsOrderedAddMonoid α]
+variable {α : Type} [LinearOrder α] [Add α] [Sub α]
 
 /-- values satisfying the invariant never trigger the constructor / setter hit test -/
-theorem hitAll_false_of_ok {eps : α} (heps : 0 ≤ eps) (an : Bool) : ∀ (xs lo hi : List (XR α)),
+theorem hitAll_false_of_ok {eps : α} (heps : EpsOk eps) (an : Bool) : ∀ (xs lo hi : List (XR α)),
     valuesOk an xs lo hi = true → hitAll eps xs lo hi = false := by
   intro xs
   induction xs with
@@ -837,10 +893,10 @@ theorem valuesOk_maxs (an : Bool) (n : Nat) : ∀ (lo hi : List (XR α)), lo.len
 end selfcopy
 
 section selfcopy_eps
-variable {α : Type} [LinearOrder α] [AddCommGroup α] [IsOrderedAddMonoid α]
+variable {α : Type} [LinearOrder α] [Add α] [Sub α] [OfNat α 0]
 
 /-- the constructor accepts, unchanged, the bounds / defaults of a well-formed vector (fixed `clone`, `from_dict`) -/
-theorem mkArrays_self {eps : α} (heps : 0 ≤ eps) {names : List String} {cb ch an : Bool} {lo hi d : List (XR α)}
+theorem mkArrays_self {eps : α} (heps : EpsOk eps) {names : List String} {cb ch an : Bool} {lo hi d : List (XR α)}
     (h : ArraysOk names cb ch an lo hi d) :
     mkArrays eps names (some d) (some lo) (some hi) cb ch an = .ok (lo, hi, d) := by
   obtain ⟨nl, nh⟩ := boundsOk_noNaN lo hi h.bounds (by rw [h.len_lo, h.len_hi])
@@ -869,7 +925,7 @@ theorem mkArrays_self {eps : α} (heps : 0 ≤ eps) {names : List String} {cb ch
 
 /-- constructor + values setter + hit flag on a well-formed vector's own data: accepted, and the result shows
 exactly the data it was given -/
-theorem rebuild_self {eps : α} (heps : 0 ≤ eps) (s : Store α) {names : List String} {cb ch an : Bool}
+theorem rebuild_self {eps : α} (heps : EpsOk eps) (s : Store α) {names : List String} {cb ch an : Bool}
     {lo hi d vals : List (XR α)} (hit : Bool) (h : ArraysOk names cb ch an lo hi d)
     (hv : valuesOk an vals lo hi = true) (hl : vals.length = names.length) :
     ∃ s' c, rebuild eps s names d lo hi vals hit cb ch an = .ok (s', c)
@@ -1282,22 +1338,42 @@ theorem sync_length (eps : α) (w : World α) (t : Trans) : (sync eps w t).vecs.
 
 theorem tstep_length (eps : α) (w : World α) (t : Trans) (op : TOp α) :
     (tstep eps w t op).1.vecs.length = w.vecs.length := by
-  cases op <;> simp only [tstep, sync_length]
-  · split
+  cases op with
+  | forward => simp only [tstep, sync_length]
+  | backward => simp only [tstep, sync_length]
+  | jacobian => simp only [tstep, sync_length]
+  | sample => rfl
+  | logprior => rfl
+  | print => rfl
+  | getItem nm => simp only [tstep]; split <;> simp
+  | getAttr nm => simp only [tstep]; split <;> rfl
+  | setItem nm x =>
+    simp only [tstep]
+    split
     · split
       · exact update_length _ _ _
       · split <;> exact update_length _ _ _
     · rfl
-  · split
+  | setAttr nm x =>
+    simp only [tstep]
+    split
     · split
       · exact update_length _ _ _
       · split
         · exact update_length _ _ _
         · rfl
     · rfl
-  · exact update_length _ _ _
-  · exact update_length _ _ _
-  · exact update_length _ _ _
+  | reset => exact update_length _ _ _
+  | setParams xs => exact update_length _ _ _
+  | setConstants xs => exact update_length _ _ _
+
+/-- the two read accessors of a transform return the world they were given -/
+@[simp] theorem tstep_getItem_fst (eps : α) (w : World α) (t : Trans) (nm : String) :
+    (tstep eps w t (.getItem nm)).1 = w := by
+  simp only [tstep]; split <;> simp
+@[simp] theorem tstep_getAttr_fst (eps : α) (w : World α) (t : Trans) (nm : String) :
+    (tstep eps w t (.getAttr nm)).1 = w := by
+  simp only [tstep]; split <;> rfl
 
 /-- a fresh vector shows its defaults and an unset hit flag -/
 theorem mk_view [OfNat α 0] {eps : α} {s s1 : Store α} {names : List String}
@@ -1349,9 +1425,9 @@ end instances
 
 /-! ### the margin test against actual clipping -/
 section hitlemmas
-variable {α : Type} [LinearOrder α] [AddCommGroup α] [IsOrderedAddMonoid α]
+variable {α : Type} [LinearOrder α] [Add α] [Sub α]
 
-theorem elem_hit_iff {eps : α} (heps : 0 ≤ eps) (x l h : XR α) (hb : boundElem l h = true)
+theorem elem_hit_iff {eps : α} (heps : EpsOk eps) (x l h : XR α) (hb : boundElem l h = true)
     (hr : XR.inRegion eps x l h = true) : XR.outsideEps eps x l h = true ↔ XR.clipNp x l h ≠ x := by
   simp only [boundElem, Bool.and_eq_true, Bool.not_eq_true'] at hb
   cases hx : x.isNaN
@@ -1368,7 +1444,7 @@ theorem elem_hit_iff {eps : α} (heps : 0 ≤ eps) (x l h : XR α) (hb : boundEl
     rw [XR.clipNp_nan]
     cases l <;> cases h <;> simp [XR.outsideEps, XR.lt, XR.subEps, XR.addEps]
 
-theorem hitAll_iff {eps : α} (heps : 0 ≤ eps) : ∀ (xs lo hi : List (XR α)), boundsOk lo hi = true →
+theorem hitAll_iff {eps : α} (heps : EpsOk eps) : ∀ (xs lo hi : List (XR α)), boundsOk lo hi = true →
     all3 (XR.inRegion eps) xs lo hi = true → xs.length = lo.length → xs.length = hi.length →
     (hitAll eps xs lo hi = true ↔ clipAll xs lo hi ≠ xs) := by
   intro xs
